@@ -237,6 +237,9 @@ def explore(run, assumptions=(), max_paths=400, check_timeout_ms=4000, prune=Tru
             except BaseException as e:  # the code under test raised  # noqa: BLE001
                 if ctx.unsupported is not None:
                     raise Unsupported(ctx.unsupported) from e
+                acc = internal_error(e)
+                if acc is not None:
+                    raise Unsupported("accident inside the model, not an exception of the code: " + acc) from e
                 v, kind = e, "raise"
             if ctx.unsupported is not None:
                 # an Unsupported was swallowed by an `except` of the code under test
@@ -248,3 +251,70 @@ def explore(run, assumptions=(), max_paths=400, check_timeout_ms=4000, prune=Tru
             raise PathLimit("more than %d paths" % max_paths)
     explore.last_seconds = time.time() - t0
     return paths
+
+
+# ------------------------------------------------------------------ unknown attributes of model objects
+_REAL_TYPES = {}
+
+
+def _real_type(name):
+    if name not in _REAL_TYPES:
+        try:
+            import numpy as np
+            import pandas as pd
+
+            table = {
+                "numpy.ndarray": np.ndarray, "numpy.ma.MaskedArray": np.ma.MaskedArray, "numpy.float64": np.float64, "numpy.int64": np.int64,
+                "numpy.bool_": np.bool_, "numpy.datetime64": np.datetime64, "numpy.timedelta64": np.timedelta64, "float": float, "int": int, "bool": bool,
+                "pandas.Series": pd.Series, "pandas.DatetimeIndex": pd.DatetimeIndex, "pandas.Index": pd.Index, "pandas.TimedeltaIndex": pd.TimedeltaIndex,
+                "pandas.Timestamp": pd.Timestamp, "pandas.DataFrame": pd.DataFrame, "pandas.core.window.rolling.Rolling": pd.core.window.rolling.Rolling,
+            }
+            _REAL_TYPES.update(table)
+        except Exception:  # noqa: BLE001
+            pass
+    return _REAL_TYPES.get(name)
+
+
+def unknown_attr(real_name, attr, internal=()):
+    """__getattr__ of a model object for an attribute the model does not define: if the real type does
+    not have it either the answer is AttributeError (hasattr probes of the code work as on the real
+    object); if the real type has it the model is incomplete - the function is undecided, never
+    'raises AttributeError'"""
+    if attr.startswith("_") or attr in internal:
+        raise AttributeError(attr)
+    rt = _real_type(real_name)
+    if rt is not None and not hasattr(rt, attr):
+        raise AttributeError("'%s' object has no attribute '%s'" % (real_name.split(".")[-1], attr))
+    if active():
+        cur().unsupported_here("%s.%s is not modelled" % (real_name, attr))
+    raise AttributeError(attr)
+
+
+# ------------------------------------------------------------------ accidents inside the model
+_OWN_DIRS = None
+
+
+def internal_error(e):
+    """An exception that Python itself raised inside model / contract code (attribute of None, bad
+    operand, missing key ...) - as opposed to one the model raises on purpose with a `raise` statement
+    or ensure() because the library would.  Such an accident says nothing about the code under test:
+    the caller turns it into Unsupported.  -> description or None"""
+    global _OWN_DIRS
+    import linecache
+    import os
+
+    if _OWN_DIRS is None:
+        here = os.path.dirname(os.path.abspath(__file__))
+        _OWN_DIRS = (here + os.sep, os.path.join(os.path.dirname(here), "contracts") + os.sep)
+    tb = e.__traceback__
+    if tb is None:
+        return None
+    while tb.tb_next is not None:
+        tb = tb.tb_next
+    fn = os.path.abspath(tb.tb_frame.f_code.co_filename)
+    if not fn.startswith(_OWN_DIRS):
+        return None
+    line = linecache.getline(fn, tb.tb_lineno).strip()
+    if line.startswith("raise ") or "ensure(" in line or line.startswith("ensure"):
+        return None
+    return "%s: %s at %s:%d (%s)" % (type(e).__name__, str(e)[:120], os.path.basename(fn), tb.tb_lineno, line[:80])
